@@ -11,6 +11,7 @@ def dispatch (j : Json) : Except String Json := do
   | "ping" => pure (Json.mkObj [("ok", .bool true)])
   | "sim" => cmdSim j
   | "basic" => cmdBasic j
+  | "ops" => cmdOps j
   | "sanity" => cmdSanity j
   | "topo" => cmdTopo j
   | _ => throw s!"unknown cmd {cmd}"
